@@ -21,7 +21,21 @@ def budget(tier):
 
 
 def gen_cases(rng, n, tier):
-    return B.gen_cases_default(rng, n, tier, manualtx=True)
+    cases = B.gen_cases_default(rng, n, tier, manualtx=True)
+    k = 0
+    for c in cases:
+        if c['cfg'].get('shape') != 'blog':
+            continue
+        # a second application session on the same connection joins the running database transaction after a flush,
+        # adds something non-versioned and is committed: still one transaction record per database transaction
+        prog = []
+        for op in c['prog']:
+            prog.append(op)
+            if op[0] == 'flush' and rng.random() < 0.25:
+                k += 1
+                prog.append(['helper', 20 + k])
+        c['prog'] = prog
+    return cases
 
 
 def corpus():
@@ -32,6 +46,10 @@ def corpus():
              prog=[['add', 3, 1, {'a': 0}], ['commit'], ['set', 3, 1, {'a': 1}], ['commit'],
                    ['add', 0, 1, {'a': 1}], ['flush'], ['add', 1, 1, {}], ['flush'], ['rollback'],
                    ['add', 0, 1, {'a': 2}], ['commit']]),
+        # a helper session on the same connection, committed inside the main session's database transaction
+        dict(cfg=dict(shape='blog', strategy='validity'),
+             prog=[['add', 0, 1, {'a': 1}], ['commit'], ['set', 0, 1, {'a': 2}], ['flush'], ['helper', 21],
+                   ['add', 0, 2, {'a': 1}], ['flush'], ['set', 0, 1, {'a': 3}], ['commit']]),
     ]
 
 
